@@ -76,11 +76,11 @@ def exc_name(e):
   return type(e).__name__
 
 
-def observe(fn, inp, mod, cells, limit=10.0):
+def observe(fn, inp, mod, cells, limit=10.0, gnames=('G0', 'G1')):
   """Runs fn on fresh arguments; returns {'outcome','log','post','prop'}."""
   rt.reset()
-  mod.G0 = 0
-  mod.G1 = 5
+  setattr(mod, gnames[0], 0)
+  setattr(mod, gnames[1], 5)
   args = fresh_args(inp)
   try:
     with time_limit(limit):
@@ -103,7 +103,7 @@ def observe(fn, inp, mod, cells, limit=10.0):
   except NAMEERR:
     cv = ('unbound-cell',)
   post = {'o': sorted((k, repr(v)) for k, v in args[2].__dict__.items()), 'd': repr(sorted(args[3].items())),
-          'l': repr(args[4]), 'G0': repr(getattr(mod, 'G0', '<deleted>')), 'G1': repr(getattr(mod, 'G1', '<deleted>')),
+          'l': repr(args[4]), 'G0': repr(getattr(mod, gnames[0], '<deleted>')), 'G1': repr(getattr(mod, gnames[1], '<deleted>')),
           'cells': repr(cv)}
   prop = log.index(rt.PROP) if rt.PROP in log else None
   return {'outcome': outcome, 'log': log, 'post': post, 'prop': prop}
